@@ -249,7 +249,9 @@ fn gen_chain(rng: &mut StdRng, abs: &mut Abs, cfg: &Cfg, e: &mut Emit, boost: u6
 // the round-R proposal, the other members' votes for it, a TC for round R, individual timeouts for round R, timer
 // expiries and duplicates: the QC path, the TC path, and every race between them (late votes after a TC, a late TC
 // after the QC, ...), followed by the loop-backs of the node's own proposals.
+thread_local! { static CLEAN_LEADER: std::cell::Cell<Option<u64>> = std::cell::Cell::new(None); }
 fn gen_leader(rng: &mut StdRng, abs: &mut Abs, cfg: &Cfg, e: &mut Emit) -> Vec<Ev> {
+    let mut clean = true;
     let n = cfg.n as u64;
     let mut r_plus = cfg.me as u64; while r_plus < 3 { r_plus += n; }
     if rng.gen_bool(0.3) { r_plus += n; }
@@ -267,11 +269,13 @@ fn gen_leader(rng: &mut StdRng, abs: &mut Abs, cfg: &Cfg, e: &mut Emit) -> Vec<E
     let b_r = abs.mk_block(qc_prev.clone(), None, big_r, rand_payload_none());
     let mut pool: Vec<Ev> = vec![Ev::Propose(b_r.clone())];
     for a in 0..cfg.n { if a != cfg.me || rng.gen_bool(0.1) { pool.push(Ev::Vote(abs.mk_vote(a, &b_r))); } }
-    if rng.gen_bool(0.7) { e.stat("leader:tc", 1); let s2 = cfg.quorum_set(rng, false); let hq = qc_prev.round; pool.push(Ev::TC(abs.mk_tc(big_r, &s2.iter().map(|&a| (a, hq)).collect::<Vec<_>>()))); }
-    if rng.gen_bool(0.6) { e.stat("leader:timeouts", 1); for a in 0..cfg.n { if a != cfg.me && rng.gen_bool(0.8) { pool.push(Ev::Timeout(abs.mk_timeout(a, big_r, qc_prev.clone()))); } } }
-    if rng.gen_bool(0.4) { pool.push(Ev::Timer); }
+    // one scenario in four is a clean happy path (proposal + everybody's vote, any order, nothing else): C06's enabling monitor applies
+    let happy = rng.gen_bool(0.25);
+    if !happy && rng.gen_bool(0.7) { clean = false; e.stat("leader:tc", 1); let s2 = cfg.quorum_set(rng, false); let hq = qc_prev.round; pool.push(Ev::TC(abs.mk_tc(big_r, &s2.iter().map(|&a| (a, hq)).collect::<Vec<_>>()))); }
+    if !happy && rng.gen_bool(0.6) { clean = false; e.stat("leader:timeouts", 1); for a in 0..cfg.n { if a != cfg.me && rng.gen_bool(0.8) { pool.push(Ev::Timeout(abs.mk_timeout(a, big_r, qc_prev.clone()))); } } }
+    if !happy && rng.gen_bool(0.4) { clean = false; pool.push(Ev::Timer); }
     if rng.gen_bool(0.3) { let a = rng.gen_range(0, cfg.n); pool.push(Ev::Vote(abs.mk_vote(a, &b_r))); } // duplicate vote
-    if rng.gen_bool(0.35) { // forged votes for the round-R block: claimed author (possibly the node itself), signature by somebody else
+    if !happy && rng.gen_bool(0.35) { clean = false; // forged votes for the round-R block: claimed author (possibly the node itself), signature by somebody else
         e.stat("leader:forged_vote", 1);
         for _ in 0..rng.gen_range(1, 3) {
             let claimed = if rng.gen_bool(0.5) { cfg.me } else { rng.gen_range(0, cfg.n) };
@@ -280,12 +284,14 @@ fn gen_leader(rng: &mut StdRng, abs: &mut Abs, cfg: &Cfg, e: &mut Emit) -> Vec<E
             pool.push(Ev::Vote(v));
         }
     }
-    if rng.gen_bool(0.2) { // a conflicting block of the same round with votes for it
+    if !happy && rng.gen_bool(0.2) { clean = false; // a conflicting block of the same round with votes for it
         let f = abs.mk_block(qc_prev.clone(), None, big_r, vec![batch_digest(13)]);
         for a in 0..cfg.n { if a != cfg.me && rng.gen_bool(0.5) { pool.push(Ev::Vote(abs.mk_vote(a, &f))); } }
         e.stat("leader:conflicting_votes", 1);
     }
     pool.shuffle(rng);
+    if clean { e.stat("leader:clean_happy_path", 1); }
+    CLEAN_LEADER.with(|c| c.set(if clean { Some(r_plus) } else { None }));
     for ev in pool { evs.push(ev); if rng.gen_bool(0.3) { evs.push(Ev::Loop); } }
     evs.push(Ev::LoopAll); evs.push(Ev::LoopAll);
     // one more round on top of whatever the node proposed is left to the loop-backs; add stale leftovers
@@ -386,6 +392,7 @@ async fn run_case(seed: u64, case: usize, script: Option<&str>, dbroot: &str, e:
     e.stat(&format!("n={}", n), 1);
     if stakes.iter().any(|&x| x != 1) { e.stat("weighted", 1); }
 
+    CLEAN_LEADER.with(|c| c.set(None));
     let evs: Vec<Ev> = match (script, kind) {
         (Some(s), _) => gen_script(s, &mut abs, &cfg),
         (None, 3) | (None, 6) => gen_malformed(&mut rng, &mut abs, &cfg, e),
@@ -516,7 +523,8 @@ fn main() {
             let defs = format!("{}Definition cmt := mkCommittee {}.\nDefinition evs : list (list N * Event) := {}.\nDefinition obs : list Obs := {}.\n",
                 out.defs, coq_list(&stakes), coq_list(&out.evs), coq_list(&out.obs));
             if out.nontrivial && seen.insert(out.evs.join(";")) { e.stat("distinct_nontrivial", 1); }
-            let verdict = format!("step_verdict cmt {} evs obs", cfg.me);
+            let c06 = CLEAN_LEADER.with(|c| c.get());
+            let verdict = match c06 { Some(r) => format!("step_verdict cmt {} evs obs ++ [b2n (mon_c06_make obs {})]", cfg.me, r), None => format!("step_verdict cmt {} evs obs ++ [1]", cfg.me) };
             e.case(k, &defs, &verdict, json!({"case": k, "script": script, "committee_stakes": cfg.stakes, "me": cfg.me, "events": out.human, "messages_hex": out.hexmsgs}));
         }
     });
